@@ -49,7 +49,7 @@ def value(node, ctx, depth=0):
     pr = ctx.probe
     if t in ("set", "lit", "until", "any", "recognize", "tokset"):
         v = ctx.leaf(node)
-        if t == "set" and node.get("vmap") is not None:
+        if t in ("set", "tokset") and node.get("vmap") is not None:
             old = pr.module
             pr.module = tuple(node.get("vmod") or old)
             try:
